@@ -969,6 +969,26 @@ func (self *Analyzer) callExpression(node pAst.CallExpression) ast.AnalyzedCallE
 
 		arguments = self.callArgs(baseFn, node.Arguments, node.IsSpawn)
 
+		// a thread can only be started from a function definition: the compiler has no lowering for spawning a
+		// function value (local variable, builtin, arbitrary expression)
+		spawnsModuleFunction := false
+		if node.Base.Kind() == pAst.IdentExpressionKind {
+			name := node.Base.(pAst.IdentExpression).Ident.Ident()
+			if variable, _, isVariable := self.currentModule.getVar(name); !isVariable {
+				_, spawnsModuleFunction = self.currentModule.getFunc(name)
+			} else if variable.Origin == ImportedVariableOriginKind {
+				// a function imported from another module
+				spawnsModuleFunction = true
+			}
+		}
+		if node.IsSpawn && !spawnsModuleFunction {
+			self.error(
+				"Only functions of a module can be spawned",
+				[]string{"Builtin functions and function values cannot run as a thread: wrap the call in a function, `fn worker() { ... }`, and spawn that"},
+				base.Span(),
+			)
+		}
+
 		// lookup the result type of the function
 		thisExpressionResultsIn = baseFn.ReturnType
 	default:
